@@ -36,16 +36,20 @@ type Opts struct {
 	Mode         shape.Mode
 	DistinctLens bool
 	ParamDomain  map[string]int64
+	// SkipGamma names types whose Γ ordering assumption is not needed by the calling rule and is
+	// therefore not used (an assumption hides every violation outside it)
+	SkipGamma map[string]bool
 }
 
 func (c *Ctx) Results(fi *load.FuncInfo, o Opts) []*shape.Result {
-	key := fmt.Sprintf("%s|%d|%v|%v", load.FuncName(fi.Fn), o.Mode, o.DistinctLens, o.ParamDomain)
+	key := fmt.Sprintf("%s|%d|%v|%v|%v", load.FuncName(fi.Fn), o.Mode, o.DistinctLens, o.ParamDomain, o.SkipGamma)
 	if r, ok := c.cache[key]; ok {
 		return r
 	}
 	it := shape.NewInterp(c.P, o.Mode)
 	it.DistinctLens = o.DistinctLens
 	it.ParamDomain = o.ParamDomain
+	it.SkipGamma = o.SkipGamma
 	rs := it.AnalyzeRoot(fi)
 	c.cache[key] = rs
 	return rs
